@@ -15,6 +15,9 @@ CONSTANTS
   SMCells2 <- CellsS2
   SMWeights = {2}
   MaxOps = 0
+  PLeaves = 2
+  PCells <- CellsS2
+  TipsNarrowed = FALSE
   Shipped = FALSE
 INVARIANT DomainOk
 INVARIANT ThmMovesSound
